@@ -1,4 +1,5 @@
 import MosnVerif.Lemmas.Downstream.Worker3
+import MosnVerif.Lemmas.Downstream.UpfWork
 /-! the worker label `work`: the response pass -/
 namespace MosnVerif.Model.Downstream
 open MosnVerif.Gen.ProxyPhase MosnVerif.Gen.ProxyReason MosnVerif.Gen.ProxyRetry
@@ -121,10 +122,23 @@ theorem inv_work_upfilter (c : Cfg) (ar aq : Nat) (s : S) (h : Inv c ar aq s) (h
   have hcl := inv_not_cleaned h hrun
   have hupp : upPhase s.phase = true := by simp [hp, upPhase]
   obtain ⟨hlc, hresp, hur0, htm, hrst, _, _⟩ := h.k15 hcl hupp
-  have hur : s.upReset = false := by
-    cases hu : s.upReset with
-    | false => rfl
-    | true => rcases hur0 hu with hh | hh <;> (rw [hp] at hh; cases hh)
+  by_cases hurT : s.upReset = true
+  · -- [proxy7] the label `reset during UpFilter`: this `processError` handles an upstream reset raised while the sender
+    -- filters ran — retried, or answered with the error reply and the pass goes on (repair a3a21969e)
+    have hfin : Inv c ar aq (finishPhase c s) :=
+      finish_inv c ar aq s h hrun (by rw [hp]; intro hh; cases hh) (by rw [hp]; intro hh; cases hh)
+        (fun hq => by rw [hurT] at hq; cases hq)
+    rw [finishPhase_eq] at hfin
+    cases hpe : processError c s with
+    | mk s' o =>
+      rw [hpe] at hfin
+      cases o with
+      | some p => exact hfin
+      | none =>
+        have hph' := finishOf_pe_none_phase c s s' hpe
+        simp only [finishOf] at hfin ⊢
+        exact inv_fake_up c ar aq _ hfin (by simp [hph', hp, Phase.next, upPhase])
+  have hur : s.upReset = false := by simpa using hurT
   have hsr := (h.k7 hcl).1
   have hdir : s.direct = false := not_direct_of_phase h.k7 hcl (by rw [hp]; decide)
   have hpd : s.procDone = false := by
